@@ -1140,19 +1140,19 @@ package sftp
 //@   property C07
 //@   results fs, err
 //@   ensures err == nil ==> fs != nil
-//@   modifies ghost.extL0
+//@   modifies ghost.extL0, ghost.extCnt
 
 //@ func (*sshFxpSetstatPacket).unmarshalFileStat
 //@   property C07
 //@   results fs, err
 //@   ensures err == nil ==> fs != nil
-//@   modifies ghost.extL0
+//@   modifies ghost.extL0, ghost.extCnt
 
 //@ func (*sshFxpFsetstatPacket).unmarshalFileStat
 //@   property C07
 //@   results fs, err
 //@   ensures err == nil ==> fs != nil
-//@   modifies ghost.extL0
+//@   modifies ghost.extL0, ghost.extCnt
 
 //@ ghost var svErr error
 
@@ -3287,3 +3287,32 @@ package sftp
 
 //@ extend func (*RequestServer).Serve
 //@   requires okPath(rs.startDirectory)
+
+// C12 / C01: the concurrent download starts at the file's implicit offset and asks for consecutive chunks from there
+// (seed C12-20: a feeder that starts at 0 transfers the whole file whatever the position).
+//@ extend func (*File).WriteTo$2
+//@   loop 1 ghost cnt64
+//@   loop 1 invariant off == old(f.offset) + (ghost.cnt64 - old(ghost.cnt64))
+//@   update after call (*clientConn).dispatchRequest#1: ghost.cnt64 = ghost.cnt64 + int64(chunkSize)
+//@   assert before call (*clientConn).dispatchRequest#1: arg2.(*sshFxpReadPacket).Offset == uint64(old(f.offset) + (ghost.cnt64 - old(ghost.cnt64)))
+
+// C16 / C06: the plausibility bound on the extended-attribute count refuses only what cannot fit. Every other error
+// return hands back a nil remainder, so a refusal with bytes left is the bound itself, and it is taken only when the
+// announced pairs need more than the bytes that are there at 8 bytes (two length words) a pair (seed C16-19: a bound
+// of 16 bytes a pair refuses a last entry whose pairs are short). Stated for remainders below 2^35 bytes, beyond
+// which the code's conversion of len/8 to uint32 truncates.
+//@ ghost var extCnt uint32
+//@ extend func unmarshalFileStat
+//@   update after call unmarshalUint32Safe#6: ghost.extCnt = ret0
+//@   ensures flags & sshFileXferAttrExtended != 0 && err != nil && len(rest) > 0 && len(rest) < 0x800000000 ==> len(rest) == ghost.extL0 && uint64(ghost.extCnt) * 8 > uint64(len(rest))
+
+// C04: a READDIR request that fails in transport fails the listing with that error (seed C04-19: the error bound to a
+// loop-local variable ended the loop and the entries gathered so far were returned with a nil error). io.EOF is
+// excepted because the function itself reads it as the end of the listing.
+//@ ghost var rdFail bool
+//@ extend func (*Client).ReadDirContext
+//@   update after call (*Client).opendir#1: ghost.rdFail = false
+//@   update after call (*clientConn).sendPacket#1: ghost.rdFail = ret2 != nil && ret2 != io.EOF
+//@   loop 1 ghost rdFail
+//@   loop 1 invariant !ghost.rdFail
+//@   ensures ghost.rdFail ==> err != nil
